@@ -587,8 +587,9 @@ func contentList(computer *ComputedStyle, values pr.ContentProperties) (pr.Conte
 			computedValue = value
 		case "attr()":
 			attr, ok := value.Content.(pr.AttrData)
-			if !ok || attr.TypeOrUnit != "string" {
-				panic(fmt.Sprintf("invalid attr() property : %v", value.Content))
+			// the validation accepts attr(<name>), attr(<name> string) and attr(<name> url)
+			if !ok || (attr.TypeOrUnit != "string" && attr.TypeOrUnit != "url") {
+				return nil, fmt.Errorf("invalid attr() property : %v", value.Content)
 			}
 			var err error
 			computedValue, err = computeAttrFunction(computer, attr)
